@@ -77,7 +77,15 @@ func VerifPluginStates(r *Adaptation) (open, closed []string) {
 func (vp *VerifPlugin) Name() string          { return vp.p.name() }
 func (vp *VerifPlugin) IsClosed() bool        { return vp.p.isClosed() }
 func (vp *VerifPlugin) Events() api.EventMask { return vp.p.events }
-func (vp *VerifPlugin) Close()                { vp.p.close() }
+
+// Close closes the plugin. A plugin that was never started has a multiplexer whose reader still waits
+// to be unblocked (it would linger for ever): unblock it first so that closing ends it.
+func (vp *VerifPlugin) Close() {
+	if vp.p.mux != nil {
+		vp.p.mux.Unblock()
+	}
+	vp.p.close()
+}
 
 // Configure runs the real configure step (mask validation).
 func (vp *VerifPlugin) Configure(ctx context.Context, name, version, config string) error {
